@@ -17,7 +17,7 @@ func zzSameLane(g, a float32) bool {
 func zzC18_dct64() {
 	zzIgnoreZeroSign()
 	g := zzF32s("x", 64)
-	a := append([]float32{}, g...)
+	a := zzGuardCopy(g)
 	forwardDCT64(g)
 	asmForwardDCT64(a)
 	for i := range g {
@@ -29,7 +29,7 @@ func zzC18_dct64() {
 func zzC18_dct256() {
 	zzIgnoreZeroSign()
 	g := zzF32s("x", 256)
-	a := append([]float32{}, g...)
+	a := zzGuardCopy(g)
 	forwardDCT256(g)
 	asmForwardDCT256(a)
 	for i := range g {
@@ -41,7 +41,7 @@ func zzC18_dct256() {
 func zzC18_dct2d64() {
 	zzIgnoreZeroSign()
 	g := zzF32s("x", 64*64)
-	a := append([]float32{}, g...)
+	a := zzGuardCopy(g)
 	saveFlag, saveFn := FlagUseASM, ForwardDCT64
 	FlagUseASM, ForwardDCT64 = false, forwardDCT64
 	og := DCT2DHash64(g)
@@ -63,5 +63,51 @@ func zzC18_negzero() {
 	for i := range g {
 		zzAssert(zzBits(g[i]) == zzBits(a[i]), "asmForwardDCT64 equals forwardDCT64 bit for bit on the vector (-0, +0, ..., +0)")
 	}
+	zzReached("end")
+}
+
+// C18-3: the portable float32 kernels agree with the unscaled DCT-II. The kernel's output terms are read over the reals
+// (exact rational linear forms of the 64 / 256 inputs) and "for every real x: |out_k(x) - DCTII_k(x)| <= eps*||x||_1" is
+// an LRA query per output; the rounding error of the float32 evaluation enters as a running error bound.
+func zzC18_math64() {
+	zzIgnoreZeroSign()
+	x := zzF32s("x", 64)
+	in := append([]float32{}, x...)
+	forwardDCT64(x)
+	zzAssert(zzDCTII32(in, x, 1e-6, 3.5e-5), "forwardDCT64 is within (1e-6 exact-real + 3.5e-5 rounding)*||x||_1 of the unscaled DCT-II")
+	zzReached("end")
+}
+
+func zzC18_math256() {
+	zzIgnoreZeroSign()
+	x := zzF32s("x", 256)
+	in := append([]float32{}, x...)
+	forwardDCT256(x)
+	zzAssert(zzDCTII32(in, x, 2.5e-6, 2e-4), "forwardDCT256 is within (2.5e-6 exact-real + 2e-4 rounding)*||x||_1 of the unscaled DCT-II")
+	zzReached("end")
+}
+
+// the property's own figure, 1e-5*||x||_1, on every unit impulse (exhaustive, one partition per impulse; evaluated
+// concretely by the machine exactly as the native code does)
+func zzC18_impulse64_N() int { return 64 }
+func zzC18_impulse64() {
+	x := make([]float32, 64)
+	x[zzPart()] = 1
+	in := append([]float32{}, x...)
+	forwardDCT64(x)
+	zzAssert(zzDCTII32(in, x, 1e-5, 0), "forwardDCT64 of a unit impulse is within 1e-5 of the DCT-II")
+	a := append([]float32{}, in...)
+	asmForwardDCT64(a)
+	zzAssert(zzDCTII32(in, a, 1e-5, 0), "asmForwardDCT64 of a unit impulse is within 1e-5 of the DCT-II")
+	zzReached("end")
+}
+
+func zzC18_impulse256_N() int { return 256 }
+func zzC18_impulse256() {
+	x := make([]float32, 256)
+	x[zzPart()] = 1
+	in := append([]float32{}, x...)
+	forwardDCT256(x)
+	zzAssert(zzDCTII32(in, x, 1e-5, 0), "forwardDCT256 of a unit impulse is within 1e-5 of the DCT-II")
 	zzReached("end")
 }
